@@ -141,7 +141,18 @@ func runC15(c *core.Ctx) {
 		if i%2 == 0 {
 			no.MaxLen, no.MinLen = 45, 1 // many names longer than the columns
 		}
-		w := newWorld(r, worldOpts{Exact: true, Names: no, MinDays: 1})
+		exactPool := i%3 != 2
+		w := newWorld(r, worldOpts{Exact: exactPool, Names: no, MinDays: 1})
+		if !exactPool {
+			// amounts that cancel almost but not exactly (0.3 - 0.1 - 0.2; 1e15 against 999999999999999.5)
+			d := r.Intn(len(w.Log))
+			el, base := w.Basics[0], w.Basics[len(w.Basics)-1]
+			w.Book = append(w.Book, gen.Recipe{Name: base + "/x", Ents: []gen.Ent{{Name: el, Val: gen.N("-0.1")}}}, gen.Recipe{Name: base + "/y", Ents: []gen.Ent{{Name: el, Val: gen.N("-0.2")}, {Name: "big", Val: gen.N("-999999999999999.5")}}}, gen.Recipe{Name: base + "/z", Ents: []gen.Ent{{Name: "big", Val: gen.N("1e15")}}})
+			w.Log[d].Ents = append(w.Log[d].Ents, gen.Ent{Name: el, Val: gen.N("0.3")}, gen.Ent{Name: base + "/x", Val: gen.N("1")}, gen.Ent{Name: base + "/y", Val: gen.N("1")}, gen.Ent{Name: base + "/z", Val: gen.N("1")})
+			w.BookText = gen.RenderBook(w.Book, nil)
+			w.LogText = gen.RenderLog(w.Log, w.Layout, nil)
+			c.Count("general_pool_inputs_with_cancelling_amounts", 1)
+		}
 		if i%4 == 1 {
 			// two different names that middle-truncation maps to the same label (same length,
 			// same first and last 14 runes), logged on the same day
@@ -190,7 +201,11 @@ func runC15(c *core.Ctx) {
 				c.Violation(name+"|colour-changes-content", "coloured output with escape sequences removed differs from --no-color output", doc("", tmpl, col, plain))
 				continue
 			}
-			msg, amounts := colourProblems(col.Out, len(tmpl) > 2 && tmpl[2] == "left-aligned" || tmpl[0] == "summary")
+			msg, amounts := "", 0
+			if exactPool {
+				// the sign of every amount is only known exactly on the exact pool
+				msg, amounts = colourProblems(col.Out, len(tmpl) > 2 && tmpl[2] == "left-aligned" || tmpl[0] == "summary")
+			}
 			c.Count("coloured_amounts_checked", amounts)
 			if msg != "" {
 				c.Violation(name+"|wrong-colour", msg, doc("", tmpl, col, plain))
